@@ -194,7 +194,7 @@ fn cmd_threads(a: &Args) -> Ev {
     let shard = a.u("shard", 0);
     let iters = a.u("iters", 200);
     let budget = Budget::new(a.u("time", 0));
-    let mut ev = Ev::new("C14");
+    let mut ev = Ev::new(&a.s("prop", "C14"));
     let (w, keeps) = kinds::kind_facts(&kind);
     let uni = universe(w, a.0.get("maxlen").and_then(|v| v.parse::<u8>().ok()));
     let mut g = gen::Gen::new(w, keeps, uni, Rng::from_parts(&[seed, shard, 0x5448]), false);
